@@ -883,6 +883,11 @@ _SNIFF_FIXED = ("            data = self._pending + data\n            self._pend
                 "                self._pending = data\n                return None\n"
                 "            else:\n                self.loseConnection()\n                return None\n")
 MUTANTS = [
+    Mutant("sniff-by-signature-waits-on-garbage", W, '            if (\n                len(data) >= 16\n                and data[:12] == V2Parser.PREFIX\n                and ord(data[12:13]) & 0b11110000 == 0x20\n            ):\n                self._parser = parser = V2Parser()\n            elif len(data) >= 8 and data[:5] == V1Parser.PROXYSTR:\n                self._parser = parser = V1Parser()\n            elif (len(data) < 16 and data[:12] == V2Parser.PREFIX[: len(data)]) or (\n                len(data) < 8 and data[:5] == V1Parser.PROXYSTR[: len(data)]\n            ):\n                # So far this is the beginning of a PROXY protocol signature,\n                # but the segment was too short to decide; wait for more.\n                self._undecided = data\n                return None\n            else:\n                self.loseConnection()\n                return None\n\n', '            v2Sig, v1Sig = V2Parser.PREFIX, V1Parser.PROXYSTR\n            received = len(data)\n            undecidable = False\n            if data.startswith(v2Sig):\n                if received < 16:\n                    undecidable = True\n                elif ord(data[12:13]) & 0b11110000 == 0x20:\n                    parser = V2Parser()\n            elif data.startswith(v1Sig):\n                if received < 8:\n                    undecidable = True\n                else:\n                    parser = V1Parser()\n            else:\n                undecidable = True\n            if undecidable:\n                self._undecided = data\n                return None\n            if parser is None:\n                self.loseConnection()\n                return None\n            self._parser = parser\n\n', expect_rule="sniff/"),
+    Mutant("sniff-by-signature-refuses-a-short-v1-beginning", W, '            if (\n                len(data) >= 16\n                and data[:12] == V2Parser.PREFIX\n                and ord(data[12:13]) & 0b11110000 == 0x20\n            ):\n                self._parser = parser = V2Parser()\n            elif len(data) >= 8 and data[:5] == V1Parser.PROXYSTR:\n                self._parser = parser = V1Parser()\n            elif (len(data) < 16 and data[:12] == V2Parser.PREFIX[: len(data)]) or (\n                len(data) < 8 and data[:5] == V1Parser.PROXYSTR[: len(data)]\n            ):\n                # So far this is the beginning of a PROXY protocol signature,\n                # but the segment was too short to decide; wait for more.\n                self._undecided = data\n                return None\n            else:\n                self.loseConnection()\n                return None\n\n', '            v2Sig, v1Sig = V2Parser.PREFIX, V1Parser.PROXYSTR\n            received = len(data)\n            undecidable = False\n            if data.startswith(v2Sig):\n                if received < 16:\n                    undecidable = True\n                elif ord(data[12:13]) & 0b11110000 == 0x20:\n                    parser = V2Parser()\n            elif data.startswith(v1Sig):\n                if received < 8:\n                    undecidable = True\n                else:\n                    parser = V1Parser()\n            else:\n                undecidable = v2Sig.startswith(data)\n            if undecidable:\n                self._undecided = data\n                return None\n            if parser is None:\n                self.loseConnection()\n                return None\n            self._parser = parser\n\n', expect_rule="sniff/"),
+    Mutant("v2-feed-length-read-little-endian", V2, '        size = struct.unpack("!H", self.buffer[14:16])[0] + 16\n        if len(self.buffer) < size:\n            return (None, None)\n\n        header, remaining = self.buffer[:size], self.buffer[size:]\n        self.buffer = b""\n        info = self.parse(header)\n        return (info, remaining)\n', '        have = len(self.buffer)\n        size = 16 + int.from_bytes(self.buffer[14:16], "little")\n        if size <= have:\n            header = self.buffer[:size]\n            remaining = self.buffer[size:]\n            self.buffer = b""\n            return (self.parse(header), remaining)\n        return (None, None)\n', expect_rule="v2feed/"),
+    Mutant("v2-feed-positive-test-needs-one-byte-more", V2, '        size = struct.unpack("!H", self.buffer[14:16])[0] + 16\n        if len(self.buffer) < size:\n            return (None, None)\n\n        header, remaining = self.buffer[:size], self.buffer[size:]\n        self.buffer = b""\n        info = self.parse(header)\n        return (info, remaining)\n', '        have = len(self.buffer)\n        size = 16 + int.from_bytes(self.buffer[14:16], "big")\n        if size < have:\n            header = self.buffer[:size]\n            remaining = self.buffer[size:]\n            self.buffer = b""\n            return (self.parse(header), remaining)\n        return (None, None)\n', expect_rule="v2feed/"),
+    Mutant("v1-feed-by-find-keeps-the-line-feed", V1, '        if len(self.buffer) > 107 and self.NEWLINE not in self.buffer:\n            raise InvalidProxyHeader()\n        lines = (self.buffer).split(self.NEWLINE, 1)\n        if not len(lines) > 1:\n            return (None, None)\n        self.buffer = b""\n        remaining = lines.pop()\n        header = lines.pop()\n        info = self.parse(header)\n        return (info, remaining)\n', '        at = self.buffer.find(self.NEWLINE)\n        if at < 0:\n            if 107 < len(self.buffer):\n                raise InvalidProxyHeader()\n            return (None, None)\n        header = self.buffer[:at]\n        remaining = self.buffer[at + 1 :]\n        self.buffer = b""\n        return (self.parse(header), remaining)\n', expect_rule="v1feed/"),
     Mutant("feed-result-through-local-stored-only-when-bytes-follow", W, "            self._proxyInfo, remaining = parser.feed(data)\n            if remaining:\n                self.wrappedProtocol.dataReceived(remaining)\n",
            "            parsed, remaining = parser.feed(data)\n            if remaining:\n                self._proxyInfo = parsed\n                self.wrappedProtocol.dataReceived(remaining)\n",
            expect_rule="wrapper/feed-result-stored"),
@@ -933,9 +938,9 @@ MUTANTS = [
                      "                self._undecided = data\n                return None\n", "")],
            expect_rule="sniff/valid-prefix-rejected"),
     Mutant("F47-half-reverted-buffer-never-joined", W, "            data = self._undecided + data\n            self._undecided = b\"\"\n", "            self._undecided = b\"\"\n",
-           expect_rule="s"),
+           expect_rule="sniff/"),
     Mutant("F47-wait-test-too-generous-garbage-never-refused", W, "            elif (len(data) < 16 and data[:12] == V2Parser.PREFIX[: len(data)]) or (\n                len(data) < 8 and data[:5] == V1Parser.PROXYSTR[: len(data)]\n            ):\n",
-           "            elif len(data) < 16:\n", expect_rule="s"),
+           "            elif len(data) < 16:\n", expect_rule="sniff/"),
     Mutant("v2-local-header-family-byte-looked-up-first", V2,
            "        if cls.COMMANDS[command] == _LOCALCOMMAND:\n            return _info.ProxyInfo(line, None, None)\n\n        family, netproto = familyProto & _HIGH, familyProto & _LOW\n"
            "        with convertError(ValueError, InvalidNetworkProtocol):\n            family = NetFamily.lookupByValue(family)\n            netproto = NetProtocol.lookupByValue(netproto)\n",
@@ -959,6 +964,9 @@ MUTANTS = [
            expect_rule="v1table/allowed-protocols"),
 ]
 SILENT = [
+    Silent("sniff-grouped-by-signature-with-one-wait-site", W, '            if (\n                len(data) >= 16\n                and data[:12] == V2Parser.PREFIX\n                and ord(data[12:13]) & 0b11110000 == 0x20\n            ):\n                self._parser = parser = V2Parser()\n            elif len(data) >= 8 and data[:5] == V1Parser.PROXYSTR:\n                self._parser = parser = V1Parser()\n            elif (len(data) < 16 and data[:12] == V2Parser.PREFIX[: len(data)]) or (\n                len(data) < 8 and data[:5] == V1Parser.PROXYSTR[: len(data)]\n            ):\n                # So far this is the beginning of a PROXY protocol signature,\n                # but the segment was too short to decide; wait for more.\n                self._undecided = data\n                return None\n            else:\n                self.loseConnection()\n                return None\n\n', '            v2Sig, v1Sig = V2Parser.PREFIX, V1Parser.PROXYSTR\n            received = len(data)\n            undecidable = False\n            if data.startswith(v2Sig):\n                if received < 16:\n                    undecidable = True\n                elif ord(data[12:13]) & 0b11110000 == 0x20:\n                    parser = V2Parser()\n            elif data.startswith(v1Sig):\n                if received < 8:\n                    undecidable = True\n                else:\n                    parser = V1Parser()\n            else:\n                undecidable = v2Sig.startswith(data) or v1Sig.startswith(data)\n            if undecidable:\n                self._undecided = data\n                return None\n            if parser is None:\n                self.loseConnection()\n                return None\n            self._parser = parser\n\n'),
+    Silent("v2-feed-length-by-int-from-bytes-positive-completeness-test", V2, '        size = struct.unpack("!H", self.buffer[14:16])[0] + 16\n        if len(self.buffer) < size:\n            return (None, None)\n\n        header, remaining = self.buffer[:size], self.buffer[size:]\n        self.buffer = b""\n        info = self.parse(header)\n        return (info, remaining)\n', '        have = len(self.buffer)\n        size = 16 + int.from_bytes(self.buffer[14:16], "big")\n        if size <= have:\n            header = self.buffer[:size]\n            remaining = self.buffer[size:]\n            self.buffer = b""\n            return (self.parse(header), remaining)\n        return (None, None)\n'),
+    Silent("v1-feed-by-find-and-offset-slicing", V1, '        if len(self.buffer) > 107 and self.NEWLINE not in self.buffer:\n            raise InvalidProxyHeader()\n        lines = (self.buffer).split(self.NEWLINE, 1)\n        if not len(lines) > 1:\n            return (None, None)\n        self.buffer = b""\n        remaining = lines.pop()\n        header = lines.pop()\n        info = self.parse(header)\n        return (info, remaining)\n', '        at = self.buffer.find(self.NEWLINE)\n        if at < 0:\n            if 107 < len(self.buffer):\n                raise InvalidProxyHeader()\n            return (None, None)\n        header = self.buffer[:at]\n        remaining = self.buffer[at + len(self.NEWLINE) :]\n        self.buffer = b""\n        return (self.parse(header), remaining)\n'),
     Silent("feed-result-unpacked-into-locals-first", W, "            self._proxyInfo, remaining = parser.feed(data)\n", "            parsed, remaining = parser.feed(data)\n            self._proxyInfo = parsed\n"),
     Silent("sniff-in-static-helper-that-raises-for-garbage", W,
            "            if (\n                len(data) >= 16\n                and data[:12] == V2Parser.PREFIX\n                and ord(data[12:13]) & 0b11110000 == 0x20\n            ):\n"
